@@ -102,6 +102,13 @@ CHECKS = {
         "node that only the rolled-back commit added to storage remains.",
    note="exactly one commit between checkpoint and rollback; known finding C13-SharedContent",
    technique="TLA+ rollback invariants (WMPTTrace.tla) checked by TLC on per-write-element traces"),
+ "C10": dict(level="model_checking", ref="DESIGN.md §5 C10",
+   text="WMPTProof.tla transcribes the verifier (navigation by claimed weights, re-hash of the path) over structural hashes and an "
+        "adversary with seven edit actions; TLC proves completeness and soundness for all tries/blocks/<=2 edits without "
+        "re-weighting and refutes soundness with re-weighting; every explored tampering (103k quick) is applied to the real proof "
+        "bytes and submitted to the real VerifyBlockProof, plus byte-level tampering of larger tries; TLC judges each outcome.",
+   note="known finding C10-ReweightSiblings (format-level)",
+   technique="TLA+ adversary model checked by TLC + every TLC-explored tampering replayed on the real verifier + TLC trace validation"),
 }
 
 NOT_APPLICABLE = []
